@@ -28,10 +28,12 @@ func (h *hist) kindOf(nonce uint64) string {
 		return "token"
 	case 3, 4, 5:
 		return "oset"
-	case 6:
+	case 6, 9:
 		return "call"
 	case 7:
 		return "callre" // bridge call whose callback contract re-enters executeClaim for the same nonce
+	case 8:
+		return "fxibc" // SendToFx with an IBC target (open / closed / non-existent channel)
 	default:
 		return "fx"
 	}
@@ -232,6 +234,15 @@ func generate(h *hist, r *lib.Rand, idx int) {
 				variant = r.Pick(3)
 			}
 			o := Op{Kind: "vote", Bridger: id, Nonce: nonce, CKind: h.kindOf(nonce), Variant: variant}
+			if (o.CKind == "call" || o.CKind == "token") && nonce > 1 && h.splitOf(nonce) == 1 {
+				o.Variant = 1 + r.Pick(2) // the adversarially close pair (characters moved across a field boundary)
+			}
+			if o.CKind == "fxibc" {
+				h.apply(Op{Kind: "channel"})
+				if r.Chance(20) {
+					h.apply(Op{Kind: "chanstate", Window: uint64(r.Pick(2))})
+				}
+			}
 			if rec := recOf(ob, id); rec != nil && rec.bridger >= 0 {
 				o.Bridger = int(rec.bridger) // the oracle's currently registered bridger
 			}
@@ -655,6 +666,41 @@ func scripted() []scenario {
 					note(rep, fmt.Sprintf("re-entrant callback scenario: callbacks ran %d and %d times (expected 1 and 1)", h.handlerRuns(1), h.handlerRuns(2)))
 				}
 			},
+		},
+		{
+			// adversarially close claims: different bridge calls / token registrations whose fields differ only by characters
+			// moved across a field boundary; each must collect its own quorum
+			Name: "close-pairs", Module: "eth",
+			Ops: []Op{
+				{Kind: "gov", List: []int{0, 1, 2}},
+				{Kind: "bond", Oracle: 0, Bridger: 0, Ext: 0, Stake: 20_000}, {Kind: "bond", Oracle: 1, Bridger: 1, Ext: 1, Stake: 20_000},
+				{Kind: "bond", Oracle: 2, Bridger: 2, Ext: 2, Stake: 20_000},
+				vote(0, 1, "token", 0), vote(1, 1, "token", 0), vote(2, 1, "token", 0),
+				vote(0, 2, "call", 1), vote(1, 2, "call", 2), // one vote each for two different calls: nothing may take effect
+				vote(0, 3, "token", 1), vote(1, 3, "token", 2),
+				vote(2, 2, "call", 1), // call 1 now has two thirds
+				vote(2, 3, "token", 2),
+				{Kind: "exec", Nonce: 2},
+			},
+			Check: func(h *hist, rep *lib.Report) {},
+		},
+		{
+			// SendToFx with an IBC target: executed repeatedly on an open, a closed and a non-existent channel; whatever the
+			// IBC leg does, coins may move in at most one execution of a nonce and a failed execution moves none
+			Name: "ibc-target", Module: "eth",
+			Ops: []Op{
+				{Kind: "gov", List: []int{0, 1}},
+				{Kind: "bond", Oracle: 0, Bridger: 0, Ext: 0, Stake: 30_000}, {Kind: "bond", Oracle: 1, Bridger: 1, Ext: 1, Stake: 10_000},
+				vote(0, 1, "token", 0),
+				{Kind: "channel"},
+				vote(0, 2, "fxibc", 0), vote(0, 3, "fxibc", 1), vote(0, 4, "fxibc", 0), vote(0, 5, "fx", 0),
+				{Kind: "exec", Nonce: 3}, {Kind: "exec_evm", Nonce: 3}, {Kind: "exec", Nonce: 3},
+				{Kind: "exec_evm", Nonce: 2}, {Kind: "exec", Nonce: 2},
+				{Kind: "chanstate", Window: 1}, {Kind: "exec", Nonce: 4}, {Kind: "exec_evm", Nonce: 4},
+				{Kind: "chanstate", Window: 0}, {Kind: "exec_evm", Nonce: 4}, {Kind: "exec", Nonce: 4},
+				{Kind: "exec_evm", Nonce: 5}, {Kind: "exec", Nonce: 5},
+			},
+			Check: func(h *hist, rep *lib.Report) {},
 		},
 		{
 			// lifecycle: export + import with executed and still parked claims, a lagging oracle, one that is ahead,
